@@ -175,6 +175,9 @@ func checkC08(r *Report, known []Finding) {
 		default:
 			p = patternSource(rng, i, opts)
 		}
+		if i < len(lookbehindProbes) {
+			p = lookbehindProbes[i]
+		}
 		std, err := regexp.Compile(p)
 		if err != nil {
 			continue
@@ -196,8 +199,15 @@ func checkC08(r *Report, known []Finding) {
 		strat := eng.Strategy().String()
 		r.Dist["strategy:"+strat]++
 		ast, _ := syntax.Parse(p, syntax.Perl)
-		for k := 0; k < nh; k++ {
+		nhp := nh
+		if i < len(lookbehindProbes) {
+			nhp = nh + len(lookbehindHays)
+		}
+		for k := 0; k < nhp; k++ {
 			h := GenHaystack(rng, ast, false)
+			if k >= nh {
+				h = []byte(lookbehindHays[k-nh])
+			}
 			if len(h) > 40 {
 				h = h[:40]
 			}
@@ -313,10 +323,11 @@ func checkC08(r *Report, known []Finding) {
 			inc++
 			continue
 		}
-		if hasModel && model == c.got && c.kind != "expand" {
+		if hasModel && model == c.got && c.kind != "expand" && !isASCIIBytes(c.h) {
 			// the loop did what the model says on the engine's own table; the difference from regexp comes from the
-			// single-match function (C02/C03's subject), not from Replace/Split
-			r.Dist["explained-by-engine-table"]++
+			// single-match function on a non-ASCII haystack: the recorded UTF-8 behaviour of the engines (open findings of C01-C03).
+			// On ASCII input the same situation IS reported below: the output is not stdlib's, whatever layer is to blame.
+			r.Dist["explained-by-engine-table(non-ASCII haystack: UTF-8 findings of C01-C03)"]++
 			continue
 		}
 		fam := c.api
